@@ -6,7 +6,7 @@
 (*         plain | LICENSES | .reuse | .git | .hg | .sl | subprojects |            *)
 (*         symlinkdir | ignoreddir | untrackeddir | submodule                      *)
 (*   ncls  the class of its name (both sides of every exclusion rule)              *)
-(*   type  text | binary | empty | symlink                                         *)
+(*   type  text | binary | empty | symlink | special (socket / pipe)                                        *)
 (*   want  (Git projects) tracked | untracked | ignore-exact | ignore-name |       *)
 (*         ignore-then-negate | ignore-but-tracked                                 *)
 (* The concretiser invents names of the classes, builds the Git repository and     *)
@@ -69,7 +69,7 @@ MDirPruned(f, i, o) ==
        \/ (~o.submodules /\ d.submodule)
        \/ d.ignored
 MFileIgnored(f) ==
-   \/ f.type = "symlink"
+   \/ f.type \in {"symlink", "special"}
    \/ f.ncls \in ExcludedNameClass \cup {"git-file", "hgtags"}
    \/ f.type = "empty"
    \/ f.ignored
